@@ -15,9 +15,9 @@ from ..core import ToolError
 DECAY = "DP == <<<<1, 1>>, <<2, 1>>, <<5, 2>>>>\n"
 INVS = ["FloorsFit", "CanonFAOK", "FaSplit", "FaDiscriminates", "NoZeroDiscriminates",
         "CanonFA1OK", "AllZeroNoFallback", "FaExactSplit", "FaExactDiscriminates",
-        "DecayCanonOK", "DecayInfeasibleNone"]
+        "DecayCanonOK", "DecayInfeasibleNone", "ShuffleCanonOK", "ShuffleBrute"]
 LABELS = ["all_same", "uniform", "stake_weighted", "turbine", "turbine_f2", "partition",
-          "fa1_partition", "fa1_iid", "fa2", "decay_1_1", "decay_2_1", "decay_5_2"]
+          "fa1_partition", "fa1_iid", "fa2", "decay_1_1", "decay_2_1", "decay_5_2", "weighted_shuffle"]
 
 
 def mc_cfg(max_n, max_stake, max_k, brute_k):
@@ -115,7 +115,7 @@ def run(ctx):
         raise ToolError(f"judged {trep['nodes']} events, recorded {rec['events']}")
     phase["judge"] = round(time.time() - t0, 1)
     th = trep["act_hist"]
-    for key in ["events.small", "events.projected"] + ["strategy." + x for x in LABELS]:
+    for key in ["events.small", "events.projected", "shuffle.mixed_zero", "shuffle.above_fanout_power"] + ["strategy." + x for x in LABELS]:
         if not th.get(key):
             raise ToolError(f"vacuity: no recorded event of kind {key}")
     ctx.replay_report("sampler_trace", trep)
